@@ -4,6 +4,8 @@
 //   | 6 PushFront v | 7 PushBack v | 8 EmplaceFront v | 9 EmplaceBack v | 10 Erase it | 11 Release
 // One handle per thread at a time, any number of iterator slots; Next / Deref / Erase on an
 // iterator equal to end() do nothing; a nonsensical op is skipped with K_FAULT 9 (as in the model).
+// A push / emplace of a NEGATIVE value makes the element constructor throw inside construct() (K_CALL 1,
+// K_THROW 0; the exception leaves the list operation and is logged as K_CATCH 0 by the driver).
 // ~rcu_list runs in final() on the main thread when every thread has finished; its allocator
 // calls are printed as final lines "-2 <kind> <cell number>".
 #include "vstd.hpp"
@@ -79,11 +81,11 @@ struct RcuComp {
             }
             case 6:
                 if (!me.wh) return misuse();
-                (*me.wh)->push_front(Elem(a));
+                (*me.wh)->push_front(Elem(Elem::Quiet{}, a));
                 return 0;
             case 7:
                 if (!me.wh) return misuse();
-                (*me.wh)->push_back(Elem(a));
+                (*me.wh)->push_back(Elem(Elem::Quiet{}, a));
                 return 0;
             case 8:
                 if (!me.wh) return misuse();
